@@ -434,105 +434,6 @@ def u_multitask_acc(h, fit_intercept, X='corr32', sparse=False):
         h.ensure('extrapolation-epoch-never-increases-objective', float(F6) <= float(F5) + 1e-9 * (1 + abs(float(F5))))
 
 
-def u_multitask_warm_acc(h, fit_intercept=False, X='gen33', sparse=False):
-    """MultiTaskBCD with TWO tasks, warm-started from a coefficient matrix whose only non-zero row is zero in task 0 (a legal
-    W_init, consistent XW_init), working set smaller than p (p0 = 1, one supported row => 2 rows), 6 inner epochs so that
-    the inline Anderson step fires (np.linalg.solve of the solver module is a contract stub, as in u_multitask_acc): on
-    return the caller's XW buffer equals X W (+ b) for the returned W, whichever rows the working set held and whether or
-    not the extrapolation was accepted.
-    Task 0 has zero targets, so it stays identically zero and every row norm reduces to the absolute value of the task-1
-    entry (shim.DROP_ZERO_IN_NORM: exact, sqrt(0 + b^2) = |b|) -- the run is as cheap as a one-task run, yet every place
-    where the solver looks at one task instead of the row is exercised.
-    Concrete confirmation (unpatched): real linear solve, larger random problem with 3 tasks and 4 such rows."""
-    import skglm.solvers as S
-    import skglm.solvers.multitask_bcd as mtb
-    from vf import shim
-    Pm, Dm = P(), D()
-    tol, al = h.real('tol'), h.real('alpha')
-    h.assume(tol > 0, al > 0)
-    big = h.mode != 'sym' and h.unpatched and getattr(h, 'rng', None) is not None
-    if big:
-        seed = int(float(h._val('design_seed'))) if 'design_seed' in h.values else int(h.rng.random() * 2 ** 31)
-        h.values['design_seed'] = seed
-        rs = np.random.RandomState(seed)
-        n, p, T = 40, 20, 3
-        Xc = rs.randn(n, p)
-        Wt = np.zeros((p, T))
-        Wt[:4] = 2 * rs.randn(4, T)
-        Y = np.asfortranarray(Xc @ Wt + 0.1 * rs.randn(n, T))
-        al = 0.1 * float(np.max(np.linalg.norm(Xc.T @ Y, axis=1))) / n
-        tol = 1e-10
-        rows = np.argsort(np.linalg.norm(Xc.T @ Y, axis=1))[:4]
-        nw = p + (1 if fit_intercept else 0)
-        W0 = np.zeros((nw, T))
-        W0[rows, 1:] = 0.02
-        XW0 = np.asfortranarray(Xc @ W0[:p] + (W0[p] if fit_intercept else 0.0))
-        p0, epochs = 5, 12
-    else:
-        Xc = X_of(X)
-        n, p = Xc.shape
-        T = 2
-        y = h.vec('y', n)
-        b = h.real('b')
-        h.assume(b != 0)
-        Y = h.arr([[0.0, y[i]] for i in range(n)])
-        nw = p + (1 if fit_intercept else 0)
-        stale = 1
-        b0 = h.real('b0') if fit_intercept else 0.0
-        W0 = h.arr([[0.0, (b if j == stale else (b0 if j == p else 0.0))] for j in range(nw)])
-        XW0 = h.arr([[0.0, Xc[i, stale] * b + b0] for i in range(n)])
-        p0, epochs = 1, 6
-    Xd = h.const(Xc)
-    Xa = h.csc(Xd) if sparse else Xd
-    saved = None
-    old_flag = getattr(shim, 'DROP_ZERO_IN_NORM', False)
-    if h.mode == 'sym':
-        k = h.choice('acc_pick', [0, 2, 4])
-        saved = mtb.np
-
-        class _NP:
-            def __getattr__(self, name):
-                return getattr(saved, name)
-
-        class _LA:
-            LinAlgError = np.linalg.LinAlgError
-
-            @staticmethod
-            def solve(C, b_):
-                z = np.zeros(len(b_))
-                z[k] = 1.0
-                return z
-        proxy = _NP()
-        proxy.linalg = _LA()
-        mtb.np = proxy
-        shim.DROP_ZERO_IN_NORM = True
-    try:
-        pen = h.penalty(Pm.L2_1, alpha=al)
-        df = h.datafit(Dm.QuadraticMultiTask)
-        sol = S.MultiTaskBCD(max_iter=1, max_epochs=epochs, p0=p0, tol=tol, fit_intercept=fit_intercept, use_acc=True)
-        W, obj, sc = sol._solve(Xa, Y, df, pen, W0, XW0)
-    finally:
-        if saved is not None:
-            mtb.np = saved
-        shim.DROP_ZERO_IN_NORM = old_flag
-    for j in range(min(nw, 4)):
-        h.observe('W%d' % j, W[j, T - 1])
-    if h.mode == 'sym':
-        ok = h.true()
-        for i in range(n):
-            for t in range(T):
-                ref = sum(Xc[i, kk] * W[kk, t] for kk in range(p) if Xc[i, kk] != 0) + (W[p, t] if fit_intercept else 0.0)
-                ok = h.and_(ok, h.eq(XW0[i, t], ref))
-        h.ensure('returned-buffer==X@W', ok)
-        h.ensure('returns-caller-W', W is W0)
-    else:
-        Wf = np.asarray(W, dtype=float)
-        ref = Xc @ Wf[:p] + (Wf[p] if fit_intercept else 0.0)
-        err = float(np.max(np.abs(np.asarray(XW0, dtype=float) - ref)))
-        h.ensure('returned-buffer==X@W', err <= 1e-9 * (1.0 + float(np.max(np.abs(ref)))))
-        h.ensure('returns-caller-W', True)
-
-
 def u_pn_linesearch(h, X, fit_intercept, group=False, layout='rev', group_datafit='LogisticGroup'):
     """the real backtracking line search of ProxNewton (dense and CSC twins) / GroupProxNewton from an arbitrary
     consistent state along an ARBITRARY direction: buffers stay consistent, the move is t*delta for one t for
